@@ -99,7 +99,7 @@ def model_correspondence(ck, d, tbh, progs):
         ck.broken.append('extraction/OCaml build failed: ' + log[-300:])
         return {}
     rng = ck.rng
-    hs = [0, 5, 10, 15, 1, 4] if not ck.thorough() else list(range(16))
+    hs = list(range(16))          # all combinations: a real outcome must be reproduced by SOME hidden-bit value
     seeds = [1, 2, 3, 4] if not ck.thorough() else list(range(1, 9))
     stats = {'states': 0, 'real_runs': 0, 'model_runs': 0, 'real_not_in_model': 0, 'probe_mismatch': 0, 'model_ub_skipped': 0, 'outcomes_seen': 0}
     seen = set()
@@ -122,7 +122,7 @@ def model_correspondence(ck, d, tbh, progs):
         plants.append('pc=0 areg=0 breg=0 oreg=0 fill=0x00')
         plants.append('pc=2097151 areg=4294967295 breg=4294967295 oreg=4294967280 fill=0xff')
         rng.shuffle(plants)
-        for desc in plants[:(10 if not ck.thorough() else 200)]:
+        for desc in plants[:(8 if not ck.thorough() else 200)]:
             stats['states'] += 1
             real, realp = set(), set()
             for seed in seeds:
